@@ -131,6 +131,9 @@ pub fn run_scaled(ctx: Ctx, rep: &mut Report, tiny: bool) {
         let mut codec = FrameCodec;
         let mut n = 0u64;
         for cmd in 0..=255u8 {
+            if tiny && cmd > 12 && cmd % 16 != 5 {
+                continue;
+            }
             for &len in &lens {
                 let sid = if (len ^ cmd as u32) & 1 == 0 { 0x0102_0304 } else { u32::MAX };
                 let hdr = [cmd, (sid >> 24) as u8, (sid >> 16) as u8, (sid >> 8) as u8, sid as u8, (len >> 8) as u8, len as u8];
@@ -181,6 +184,7 @@ pub fn run_scaled(ctx: Ctx, rep: &mut Report, tiny: bool) {
             lens.retain(|l| *l <= 256 || *l == 65535);
         }
         let mut n = 0u64;
+        let ids: Vec<u32> = if tiny { vec![0, 0x8000_0000, u32::MAX] } else { ids };
         for cmd in ENCODABLE {
             for &sid in &ids {
                 for &len in &lens {
@@ -211,7 +215,7 @@ pub fn run_scaled(ctx: Ctx, rep: &mut Report, tiny: bool) {
     }
 
     // (b2) attempted lengths above the 16-bit limit: Err, or a self-consistent encoding
-    for &len in &[65536usize, 65537, 70000, 131071, 131072, 65535 + 7] {
+    for &len in if tiny { &[65536usize][..] } else { &[65536usize, 65537, 70000, 131071, 131072, 65535 + 7][..] } {
         for cmd in [Command::Push, Command::Settings, Command::Waste] {
             let data = rng.bytes(len);
             let mut out = BytesMut::new();
@@ -239,13 +243,13 @@ pub fn run_scaled(ctx: Ctx, rep: &mut Report, tiny: bool) {
 
     // (c) concatenations cut at every single / pair of positions, random multi-cuts, 1-byte drip
     {
-        let n_streams = if tiny { 5 } else if quick { 60 } else { 1500 };
+        let n_streams = if tiny { 3 } else if quick { 240 } else { 6000 };
         let mut cuts_tried = 0u64;
         let mut frames_seen = 0u64;
         for si in 0..n_streams {
-            let nf = rng.usize(1, 20);
+            let nf = if tiny { rng.usize(1, 6) } else { rng.usize(1, 20) };
             let short = si % 3 != 0;
-            let max_len = if short { 24 } else if tiny { 300 } else { 65535 };
+            let max_len = if short { 24 } else if tiny { 120 } else { 65535 };
             let mut frames = Vec::new();
             let mut stream = Vec::new();
             for _ in 0..nf {
@@ -314,7 +318,7 @@ pub fn run_scaled(ctx: Ctx, rep: &mut Report, tiny: bool) {
 
     // (d) arbitrary byte strings
     {
-        let n = if tiny { 250 } else if quick { 20_000 } else { 400_000 };
+        let n = if tiny { 60 } else if quick { 200_000 } else { 4_000_000 };
         let mut frames_seen = 0u64;
         for i in 0..n {
             let len = match rng.below(5) {
